@@ -110,6 +110,10 @@ package ice
 //@   site call readStreamingPacket#1 assert reads-this-connection-into-the-full-buffer: arg0 == conn && arg1 == buff && len(buff) == receiveMTU
 //@   site call readStreamingPacket#1 ghost failed := result1 != nil
 //@   site call Write#1 assert delivers-exactly-the-framed-bytes: !failed && arg1.base == buff.base && arg1.off == buff.off && len(arg1) == n
+//@   ghostvar closedStream bool = false
+//@   site call Close#2 assert closes-the-stream-it-read-from: recv == conn
+//@   site call Close#2 ghost closedStream := true
+//@   ensures a-reader-that-stops-closes-its-stream-so-that-a-framing-error-yields-an-error-or-closure: closedStream
 
 //@ func newActiveTCPConn$1
 //@   props C14
